@@ -210,3 +210,23 @@ def c10(tier, seed):
                     "trusted_base": ["TLC", "FloatOrd limb comparisons", "observer products c*d_i*v*d_j in f64"]}
     res.assumptions = ["settings domain equilibrate_min_scaling <= 1 <= equilibrate_max_scaling"]
     return res
+
+
+def c08(tier, seed):
+    res = Result("C08", tier, seed, "model_checking")
+    wd = workdir("C08")
+    cfgs = ["MC_DataUpdate_a.cfg", "MC_DataUpdate_b.cfg", "MC_DataUpdate_c.cfg"]
+    r = spec_to_impl(res, "C08", "MC_DataUpdate.tla", cfgs, "update-replay", wd, "update", workers=8,
+                     timeout=4 * 3600, extra_args=["--seed", seed, "--every", 50 if tier == "quick" else 1])
+    res.coverage = {"states": r["states"], "transitions": max(1, r["transitions"]), "traces_validated_against_impl": r["behaviours"],
+                    "evaluations": r["behaviours"], "distinct_nontrivial": r["distinct_nontrivial"],
+                    "rule": "every history of length 2 over all argument forms of update_P/q/A/b (full vector, matching/mismatching CSC matrix, "
+                            "wrong length, empty, in-range and out-of-range index-value pairs in tuple and zip form) and update_data, followed by "
+                            "solve, plus histories on presolved and chordally decomposed solvers, is replayed on the real solver for four seed "
+                            "problems (NN QP with bad scaling, equality+NN QP, SOCP, exp cone) x equilibration on/off: result kind, internal "
+                            "data vs model after every call, KKT copy synchronised, and after solve a fresh solver on the model's data must "
+                            "agree (bit for bit with equilibration off); non-trivial = history ends with a compared solve",
+                    "per_cfg": r["per_cfg"], "samples": r["samples"], "exhaustive": True,
+                    "trusted_base": ["TLC", "replayer comparison", "observer residuals"]}
+    res.assumptions = ["after a rejected partial update of a target nothing is asserted about that target's dependent copies until it is fully rewritten (the property leaves it open)"]
+    return res
